@@ -16,6 +16,13 @@ ASSUMPTIONS = ["finite positive doubles"]
 def run(ctx, model_available=True):
     import py_checks
     res = pure_props.run_C19(ctx, model_available=model_available)
+    # whole simulations: orders whose price a before-order hook rewrote (price limit rule, order-mistake shock)
+    import events_props
+    sims = events_props.run_C19_sims(ctx)
+    res["violations"] = res["violations"] + sims["violations"]
+    res["monitor_checks"] = res.get("monitor_checks", 0) + sims["monitor_checks"]
+    res["evaluations"] = res.get("evaluations", 0) + sims["evaluations"]
+    res.setdefault("distribution", {})["simulations"] = {k: sims[k] for k in ("evaluations", "monitor_checks", "orders_off_grid_after_hooks")}
     return py_checks.merge(res, ctx, ["market"], n_each=80, model_available=model_available)
 
 
@@ -23,9 +30,14 @@ def search(ctx, res):
     ctx2 = type(ctx)(ctx.prop, "thorough", ctx.seed + 1)
     ctx2.scale = 10
     r = pure_props.run_C19(ctx2, model_available=False)
-    res["search_note"] = "extended search: %d further inputs, no failing input" % r["evaluations"]
-    return r["violations"]
+    import events_props
+    sims = events_props.run_C19_sims(ctx2, n=40)
+    res["search_note"] = "extended search: %d further inputs, %d simulations, no failing input" % (r["evaluations"], sims["evaluations"])
+    return r["violations"] + sims["violations"]
 
 
 def replay(obj):
+    if isinstance(obj.get("input"), dict) and obj["input"].get("kind") == "simulation":
+        import events_props
+        return events_props.replay_C19_sim(obj)
     return pure_props.replay_C19(obj)
